@@ -17,6 +17,10 @@ def privPod : PodObj := { name := b!"p", pod := { containers := [{ name := b!"c"
 /-- a plain pod: passes baseline, fails restricted -/
 def plainPod : PodObj := { name := b!"q", pod := { containers := [{ name := b!"c" }] } }
 def kataPod : PodObj := { privPod with name := b!"k", runtimeClass := some b!"kata" }
+/-- a pod that meets the restricted level at every version -/
+def compliantSC : SecCtx := { allowPrivEsc := some false, caps := some { drop := [b!"ALL"] }, runAsNonRoot := some true, seccompType := some b!"RuntimeDefault" }
+def compliantPod : Pod := { containers := [{ name := b!"c", sc := some compliantSC }] }
+def lim : Limits := { maxPods := 3000, timeout := 1000000000 }
 def shipped : Ev := fun lv x => evalPodModel Generated.tables false lv x.pod
 def world (labels : Labels) (pods : List PodObj := []) : World Ev := { getNs := .ok labels, listPods := .ok pods, ev := shipped }
 def podCreate (p : PodObj) (ns : Str := b!"team") : Request :=
